@@ -40,7 +40,7 @@ impl Area for LocalArea {
                 lines.push("local cget".into()); }
             1 => { stats.hit("world:histogram");
                 lines.push("local hnew 3ff0000000000000,4000000000000000,4010000000000000".into()); lines.push("local hlnew".into());
-                let mut nh = 1; let vals = [0.0, 1.0, 2.0, 3.0, 4.0, 8.0];
+                let mut nh = 1; let vals = [0.0, 1.0, 2.0, 3.0, 4.0, 8.0, -1.0, -2.5, -0.0, 0.25, f64::NAN, -8.0];
                 for _ in 0..n { let h = rng.below(nh); match rng.below(100) {
                     0..=34 => lines.push(format!("local hlobs {} {}", h, f64_hex(*rng.pick(&vals)))), 35..=52 => lines.push(format!("local hlflush {}", h)), 53..=60 => lines.push(format!("local hlclear {}", h)),
                     61..=70 => { lines.push(format!("local hlclone {}", h)); nh += 1 } 71..=78 => lines.push(format!("local hldrop {}", h)), 79..=86 => lines.push(format!("local hsobs {}", f64_hex(*rng.pick(&vals)))), _ => lines.push("local hget".into()) } }
@@ -66,6 +66,8 @@ impl Area for LocalArea {
         // ---- oracle bookkeeping (the property): shared = direct + flushed batches
         let (mut direct, mut flushed): (u64, u64) = (0, 0); let mut pend: Vec<u64> = vec![];
         let (mut hdirect, mut hflushed): (u64, u64) = (0, 0); let mut hpend: Vec<Option<u64>> = vec![];
+        // sums, in the order the code adds them: a local sum is the left fold of its observations from 0.0, a flush adds that sum to the shared sum
+        let mut hsum_ref: f64 = 0.0; let mut hpsum: Vec<f64> = vec![];
         let mut nflush = 0;
         // vector reference: exported children (tuple -> (generation, value)); per handle: tuple -> (generation bound, pending)
         let mut vexp: std::collections::HashMap<Vec<String>, (u64, u64)> = Default::default(); let mut vgen: u64 = 0;
@@ -88,17 +90,19 @@ impl Area for LocalArea {
                     if shared != direct + flushed { fails.push(Failure { class: "counter-handover".into(), detail: format!("shared counter = {} but direct updates {} + flushed batches {} (since the last shared reset)", shared, direct, flushed) }); }
                     if locals != pend { fails.push(Failure { class: "counter-pending".into(), detail: format!("local pending {:?}, accumulated since last flush/reset {:?}", locals, pend) }); }
                     outs.push(format!("shared={} locals={}", shared, nat_list(&locals))) }
-                "hnew" => { hs = Some(Histogram::with_opts(HistogramOpts::new("h", "h").buckets(f64_parse_list(p[2]))).unwrap()); hl.clear(); hpend.clear(); hdirect = 0; hflushed = 0; outs.push("ok".into()) }
-                "hlnew" => { hl.push(Some(hs.as_ref().unwrap().local())); hpend.push(Some(0)); outs.push(format!("ok h={}", hl.len() - 1)) }
-                "hlobs" => { if let Some(l) = &hl[num(2)] { l.observe(f64_parse(p[3])); *hpend[num(2)].as_mut().unwrap() += 1; } outs.push("ok".into()) }
-                "hlflush" => { if let Some(l) = &hl[num(2)] { l.flush(); hflushed += hpend[num(2)].unwrap(); hpend[num(2)] = Some(0); nflush += 1; } outs.push("ok".into()) }
-                "hlclear" => { if let Some(l) = &hl[num(2)] { l.clear(); hpend[num(2)] = Some(0); } outs.push("ok".into()) }
-                "hlclone" => { match &hl[num(2)] { Some(l) => { let c = l.clone(); hl.push(Some(c)); hpend.push(Some(0)); } None => { hl.push(None); hpend.push(None); } } outs.push(format!("ok h={}", hl.len() - 1)) }
-                "hldrop" => { let i = num(2); if hl[i].is_some() { hl[i] = None; hflushed += hpend[i].unwrap(); hpend[i] = None; nflush += 1; } outs.push("ok".into()) }
-                "hsobs" => { hs.as_ref().unwrap().observe(f64_parse(p[2])); hdirect += 1; outs.push("ok".into()) }
+                "hnew" => { hs = Some(Histogram::with_opts(HistogramOpts::new("h", "h").buckets(f64_parse_list(p[2]))).unwrap()); hl.clear(); hpend.clear(); hdirect = 0; hflushed = 0; hsum_ref = 0.0; hpsum.clear(); outs.push("ok".into()) }
+                "hlnew" => { hl.push(Some(hs.as_ref().unwrap().local())); hpend.push(Some(0)); hpsum.push(0.0); outs.push(format!("ok h={}", hl.len() - 1)) }
+                "hlobs" => { if let Some(l) = &hl[num(2)] { l.observe(f64_parse(p[3])); *hpend[num(2)].as_mut().unwrap() += 1; hpsum[num(2)] += f64_parse(p[3]); } outs.push("ok".into()) }
+                "hlflush" => { if let Some(l) = &hl[num(2)] { l.flush(); if hpend[num(2)].unwrap() > 0 { hsum_ref += hpsum[num(2)]; } hpsum[num(2)] = 0.0; hflushed += hpend[num(2)].unwrap(); hpend[num(2)] = Some(0); nflush += 1; } outs.push("ok".into()) }
+                "hlclear" => { if let Some(l) = &hl[num(2)] { l.clear(); hpend[num(2)] = Some(0); hpsum[num(2)] = 0.0; } outs.push("ok".into()) }
+                "hlclone" => { match &hl[num(2)] { Some(l) => { let c = l.clone(); hl.push(Some(c)); hpend.push(Some(0)); hpsum.push(0.0); } None => { hl.push(None); hpend.push(None); hpsum.push(0.0); } } outs.push(format!("ok h={}", hl.len() - 1)) }
+                "hldrop" => { let i = num(2); if hl[i].is_some() { hl[i] = None; if hpend[i].unwrap() > 0 { hsum_ref += hpsum[i]; } hpsum[i] = 0.0; hflushed += hpend[i].unwrap(); hpend[i] = None; nflush += 1; } outs.push("ok".into()) }
+                "hsobs" => { hs.as_ref().unwrap().observe(f64_parse(p[2])); hdirect += 1; hsum_ref += f64_parse(p[2]); outs.push("ok".into()) }
                 "hget" => {
                     let (count, sum, cum, _) = snapshot(hs.as_ref().unwrap());
                     if count != hdirect + hflushed { fails.push(Failure { class: "histogram-handover".into(), detail: format!("shared sample_count = {} but direct {} + flushed/dropped batches {}", count, hdirect, hflushed) }); }
+                    if f64_show(sum) != f64_show(hsum_ref) { fails.push(Failure { class: "histogram-handover".into(), detail: format!("shared sample_sum = {} but direct observations plus the flushed/dropped batches' sums give {}", sum, hsum_ref) }); }
+                    for (i, l) in hl.iter().enumerate() { if let Some(l) = l { if f64_show(l.get_sample_sum()) != f64_show(hpsum[i]) { fails.push(Failure { class: "histogram-pending".into(), detail: format!("local {} holds sum {}, accumulated since the last flush/clear {}", i, l.get_sample_sum(), hpsum[i]) }); } } }
                     let locals: Vec<String> = hl.iter().map(|l| match l { Some(l) => format!("{}/{}", l.get_sample_count(), f64_show(l.get_sample_sum())), None => "x".into() }).collect();
                     for (i, l) in hl.iter().enumerate() { if let Some(l) = l { if Some(l.get_sample_count()) != hpend[i] { fails.push(Failure { class: "histogram-pending".into(), detail: format!("local {} holds {} observations, accumulated {:?}", i, l.get_sample_count(), hpend[i]) }); } } }
                     if cum.last().map(|c| *c > count).unwrap_or(false) { fails.push(Failure { class: "histogram-handover".into(), detail: format!("bucket count {:?} exceeds sample count {}", cum, count) }); }
